@@ -261,7 +261,7 @@ func TestVfC18Seq(t *testing.T) {
 // random, on a node
 
 type c18Op struct {
-	Op string `json:"op"` // arrive sub unsub depart inclose newhandler next nextblock cancelwait cancelhandler adv
+	Op string `json:"op"` // arrive sub unsub depart inclose newhandler newhandlerrace closerace next nextblock cancelwait cancelhandler adv
 	P  int    `json:"p,omitempty"`
 	H  int    `json:"h,omitempty"`
 	Ms int    `json:"ms,omitempty"`
@@ -279,7 +279,7 @@ func c18Gen(rt *rapid.T) c18Case {
 	if rapid.IntRange(0, 9).Draw(rt, "long") == 0 {
 		n = rapid.IntRange(60, 200).Draw(rt, "nopsLong")
 	}
-	kinds := []string{"arrive", "sub", "sub", "sub", "unsub", "unsub", "depart", "inclose", "newhandler", "newhandler", "newhandlerrace", "next", "next", "next", "nextblock", "nextblock", "nextblock", "nextblock", "burst", "burst", "race", "race", "cancelwait", "cancelhandler", "adv"}
+	kinds := []string{"arrive", "sub", "sub", "sub", "unsub", "unsub", "depart", "inclose", "newhandler", "newhandler", "newhandlerrace", "closerace", "closerace", "next", "next", "next", "nextblock", "nextblock", "nextblock", "nextblock", "burst", "burst", "race", "race", "cancelwait", "cancelhandler", "adv"}
 	for i := 0; i < n; i++ {
 		c.Ops = append(c.Ops, c18Op{Op: rapid.SampledFrom(kinds).Draw(rt, "op"), P: rapid.IntRange(1, c.Peers).Draw(rt, "p"), H: rapid.IntRange(0, 2).Draw(rt, "h"), Ms: rapid.IntRange(0, 50).Draw(rt, "ms")})
 	}
@@ -470,6 +470,66 @@ func c18RunInBubble(t *testing.T, c c18Case, res *vfResult) {
 			hs = append(hs, &hstate{h: hr.h, f: newC18Fold()})
 			nt = true
 			res.label("handler-created-behind-a-pending-change")
+		case "closerace":
+			// Topic.Close and Topic.EventHandler are called on the same handle while the event loop is busy, so both
+			// requests are pending together. Either the handler is created and Close fails, or Close succeeds and no
+			// handler is returned; a handler that is returned is a handler of the topic and is judged like any other.
+			// (No quiescence point while the two calls are in flight: one of them may be waiting for Topic.mux.)
+			if len(hs) >= 3 {
+				continue
+			}
+			gate := make(chan struct{})
+			n.ps.eval <- func() { <-gate }
+			n.settle()
+			type hres struct {
+				h   *TopicEventHandler
+				err error
+			}
+			closeCh := make(chan error, 1)
+			hch := make(chan hres, 1)
+			old := th
+			doClose := func() { closeCh <- old.Close() }
+			doHandler := func() {
+				h, err := old.EventHandler()
+				hch <- hres{h, err}
+			}
+			first, second := doClose, doHandler
+			if op.Ms%2 == 1 {
+				first, second = doHandler, doClose
+			}
+			go first()
+			for i := 0; i < 1+op.Ms%3; i++ {
+				runtime.Gosched()
+			}
+			go second()
+			for i := 0; i < 1+op.Ms%5; i++ {
+				runtime.Gosched()
+			}
+			close(gate)
+			cerr := <-closeCh
+			hr := <-hch
+			n.settle()
+			nt = true
+			if cerr == nil {
+				res.label("closerace:closed")
+				var jerr error
+				if th, jerr = n.ps.Join(topicName); jerr != nil {
+					res.violate("C18/handler-error", step, "Join after a successful Close: %v", jerr)
+					break
+				}
+			} else {
+				res.label("closerace:close-refused")
+			}
+			if hr.err != nil {
+				if cerr != nil {
+					res.violate("C18/handler-error", step, "EventHandler failed (%v) although the racing Close failed too (%v)", hr.err, cerr)
+				}
+				continue
+			}
+			if cerr == nil {
+				res.label("closerace:handler-of-closed-topic")
+			}
+			hs = append(hs, &hstate{h: hr.h, f: newC18Fold()})
 		case "next":
 			if op.H >= len(hs) || hs[op.H].cancelled || blockedOn(op.H) > 0 {
 				continue
